@@ -33,6 +33,9 @@ def jobs(tier):
         mk('C05', 'child/await/ffG/k0', S.child('await', k=0, child_ff=True), witnesses=W),
         mk('C05', 'timed_child/depth4', _timed_child(), witnesses=W),
         mk('C05', 'small_history_tree/4', S.small_history_tree(4), witnesses=W),
+        mk('C05', 'warm_other_bus/AB', S.warm_other_bus_during_await(('A', 'B')), witnesses=W),
+        mk('C05', 'warm_other_bus/BA', S.warm_other_bus_during_await(('B', 'A')), witnesses=W),
+        mk('C05', 'x2/other_running/immediate', S.two_bus_await('other_running', ('A', 'B'), yield_first=False), witnesses=W),
         mk('C05', 'child/await/k0/decoys', dict(S.child('await', k=0), decoys={'A': 2}), witnesses=W),
     ]
     if tier == 'thorough':
